@@ -150,8 +150,8 @@ class Parser:
             if toks[0].kind == "num" and re.fullmatch(r"\d+", toks[0].text):
                 label = int(toks[0].text)
                 toks = toks[1:]
-                if label < 1 or label > 32767:
-                    raise B09SyntaxError(f"line number {label} out of range 1..32767", ln, raw)
+                if label < 0 or label > 32767:  # label 0 is tolerated: the tool documents that a referenced line 0 keeps its number
+                    raise B09SyntaxError(f"line number {label} out of range 0..32767", ln, raw)
             # split on backslashes
             seg = []
             first = True
